@@ -46,12 +46,24 @@ def binop(I, op, a, b):
         return merge(b.cond, binop(I, op, a, b.a), binop(I, op, a, b.b))
     if isinstance(a, Vec) or isinstance(b, Vec):
         if isinstance(a, Vec) and isinstance(b, Vec):
-            if len(a) != len(b):
-                raise AnalysisError("Vec length mismatch")
             # shape abstraction: a Vec is the leading (material) axis; elements that mention an
             # array symbol carry a trailing wavelength axis.  (M,) * (M, W) does not broadcast
             # along the material axis unless the first operand is a column (M, 1).
             wa, wb = wdep(I, a), wdep(I, b)
+            sa_, sb_ = _vshape(a), _vshape(b)
+            if not (wa or wb):
+                if len(sa_) == 2 or len(sb_) == 2 or len(a) != len(b):
+                    return _broadcast(I, op, a, b, sa_, sb_)
+            else:
+                # one operand carries the implicit (wavelength) axis in its elements: an explicit (n, 1) column of the
+                # other operand is the same thing as the column marker
+                def uncol(v, sh):
+                    if len(sh) == 2 and sh[1] == 1:
+                        return Vec([r.items[0] for r in v.items], col=True)
+                    return v
+                a, b = uncol(a, sa_), uncol(b, sb_)
+                if len(a) != len(b):
+                    raise SymRaise("ValueError", "operands could not be broadcast together")
             if wa != wb and not (a.col if wb else b.col):
                 raise SymRaise("ValueError", "operands of shape (M,) and (M, W) do not broadcast along the material axis")
             return Vec(binop(I, op, x, y) for x, y in zip(a, b))
@@ -137,6 +149,38 @@ def _minmax(f, es):
     return (pymin if f is sp.Min else pymax)(*es)
 
 
+def _vshape(x):
+    if isinstance(x, Vec):
+        return (len(x.items),) + (_vshape(x.items[0]) if x.items else ())
+    return ()
+
+
+def _broadcast(I, op, a, b, sa, sb):
+    """numpy broadcasting of (nested) vectors: trailing axes are aligned, axes of length 1 are stretched"""
+    nd = max(len(sa), len(sb))
+    pa, pb = (1,) * (nd - len(sa)) + sa, (1,) * (nd - len(sb)) + sb
+    for x, y in zip(pa, pb):
+        if x != y and 1 not in (x, y):
+            raise SymRaise("ValueError", f"operands could not be broadcast together with shapes {sa} {sb}")
+
+    def lift(v, shape, want):
+        while len(shape) < want:
+            v, shape = Vec([v]), (1,) + shape
+        return v
+
+    def rec(x, y, sx, sy):
+        if not sx:
+            return binop(I, op, x, y)
+        n = max(sx[0], sy[0])
+        out = []
+        for i in range(n):
+            xi = x.items[i if sx[0] > 1 else 0] if isinstance(x, Vec) else x
+            yi = y.items[i if sy[0] > 1 else 0] if isinstance(y, Vec) else y
+            out.append(rec(xi, yi, sx[1:], sy[1:]))
+        return Vec(out)
+    return rec(lift(a, sa, nd), lift(b, sb, nd), pa, pb)
+
+
 def _dotsum(I, xs, ys):
     acc = sp.Integer(0)
     for x, y in zip(xs, ys):
@@ -165,6 +209,46 @@ def _pyfmt(v):
     if isinstance(v, dict):
         return {k: _pyfmt(x) for k, x in v.items()}
     raise ValueError
+
+
+def _strformat(I, fmt, args, kwargs):
+    """str.format: fields are rendered by Python for concrete numbers/strings, by the object's own __str__ otherwise"""
+    import string
+    out, auto = [], 0
+    for lit, field, spec, conv in string.Formatter().parse(fmt):
+        out.append(lit)
+        if field is None:
+            continue
+        if "{" in (spec or ""):
+            # nested field in the spec, e.g. {0:.{1}f}
+            def sub(m):
+                k = m.group(1)
+                v = args[int(k)] if k.isdigit() else kwargs[k]
+                return str(_pyfmt(v))
+            import re as _re
+            spec = _re.sub(r"\{(\w+)\}", sub, spec)
+        head = field.split(".")[0].split("[")[0]
+        if head == "":
+            v = args[auto]
+            auto += 1
+        elif head.isdigit():
+            v = args[int(head)]
+        else:
+            v = kwargs[head]
+        for part in field[len(head):].split("."):
+            if part:
+                v = I.getattr(v, part)
+        try:
+            pv = _pyfmt(v)
+            if conv == "r":
+                pv = repr(pv)
+            elif conv == "s":
+                pv = str(pv)
+            out.append(format(pv, spec or ""))
+        except (ValueError, TypeError):
+            sv = I.call(I.builtins["str" if conv != "r" else "repr"], [v], {})
+            out.append(format(sv, spec or "") if isinstance(sv, str) else "<?>")
+    return "".join(out)
 
 
 def _symfmt(fmt, args):
@@ -429,7 +513,14 @@ def subscript(I, base, key):
         if isinstance(key, tuple):
             # weights[:, None] - broadcasting marker, element-wise model keeps the items
             if len(key) == 2 and key[0] == slice(None, None, None) and key[1] is None:
-                return Vec(base.items, col=True)
+                if base.items and isinstance(base.items[0], Vec):
+                    raise AnalysisError("array index form")
+                if wdep(I, base) or not all(_alg(x) for x in base.items):
+                    return Vec(base.items, col=True)
+                # a concrete (n,) array becomes an explicit (n, 1) column; col marks it for the implicit-axis model too
+                return Vec([Vec([x]) for x in base.items], col=True)
+            if len(key) == 2 and key[0] is None and key[1] == slice(None, None, None):
+                return Vec([Vec(list(base.items))])
             raise AnalysisError("array index form")
         if isinstance(key, slice):
             return Vec(base.items[key])
@@ -566,6 +657,10 @@ def value_attr(I, obj, name):
     if isinstance(obj, str):
         if hasattr(str, name) and not name.startswith("__"):
             def strm(*a, **k):
+                if name == "format":
+                    return _strformat(I, obj, a, k)
+                if name in ("startswith", "endswith") and a and isinstance(a[0], (tuple, list)):
+                    return getattr(obj, name)(tuple(a[0]), *[concrete_int(x) for x in a[1:]])
                 try:
                     a = [_pyfmt(x) if not isinstance(x, (list, tuple, GenVal)) else [ _pyfmt(y) for y in iterate(I, x)] for x in a]
                     k = {kk: _pyfmt(v) for kk, v in k.items()}
@@ -909,7 +1004,7 @@ def make_builtins(I):
 
 _EXT_CONST = {
     "math.pi": sp.pi, "numpy.pi": sp.pi, "numpy.nan": sp.nan, "numpy.inf": sp.oo, "math.inf": sp.oo,
-    "math.e": sp.E, "numpy.e": sp.E,
+    "math.e": sp.E, "numpy.e": sp.E, "numpy.newaxis": None,
 }
 
 
@@ -938,6 +1033,15 @@ def external(I, dotted):
         return I.builtins["copy.copy"]
     if dotted in ("itertools", "collections", "functools", "operator"):
         return ModuleVal(dotted, external=dotted)
+    if dotted == "operator.itemgetter":
+        return Builtin(dotted, lambda *ks: Builtin("itemgetter", (lambda x: subscript(I, x, ks[0])) if len(ks) == 1
+                                                   else (lambda x: tuple(subscript(I, x, k_) for k_ in ks))))
+    if dotted == "operator.attrgetter":
+        return Builtin(dotted, lambda *ns: Builtin("attrgetter", (lambda x: I.getattr(x, ns[0])) if len(ns) == 1
+                                                   else (lambda x: tuple(I.getattr(x, n_) for n_ in ns))))
+    if mod == "operator" and name in ("add", "mul", "sub", "truediv"):
+        opn = {"add": ast.Add, "mul": ast.Mult, "sub": ast.Sub, "truediv": ast.Div}[name]
+        return Builtin(dotted, lambda a, b: binop(I, opn(), a, b))
     if dotted == "itertools.chain":
         return Builtin(dotted, lambda *its: [x for it in its for x in iterate(I, it)])
     if dotted == "itertools.product":
